@@ -88,16 +88,16 @@ Qed.
    variant of the handler, Model.OIDC.token_endpoint_body_subject) releases: client C authenticates in
    the header with its own secret, names A in the body, and redeems A's code - for the audience C *)
 Definition idp3 : idp :=
-  {| srv := srv0; clients := [ {| cl_id := b "clientA"; cl_secret := b "secretA"; cl_allow_aud := false |};
-                               {| cl_id := b "clientB"; cl_secret := []; cl_allow_aud := false |};
-                               {| cl_id := b "clientC"; cl_secret := b "secretC"; cl_allow_aud := false |} ] |}.
+  {| srv := srv0; clients := [ {| cl_id := b "clientA"; cl_secret := b "secretA"; cl_allow_aud := false; cl_other := [] |};
+                               {| cl_id := b "clientB"; cl_secret := []; cl_allow_aud := false; cl_other := [] |};
+                               {| cl_id := b "clientC"; cl_secret := b "secretC"; cl_allow_aud := false; cl_other := [] |} ] |}.
 
 Definition code_for_A : token :=
   p_code srv0 (1000 * NS) (b "clientA") (b "alice") (b "openid") (b "https://a.example/cb") (b "nonce123")
          (b "jti") [] [] [].
 
 Definition two_channel_req : treq :=
-  {| tr_post := true; tr_grant := gt_authcode; tr_redirect := b "https://a.example/cb"; tr_code := code_for_A;
+  {| tr_conn := conn_none; tr_post := true; tr_grant := gt_authcode; tr_redirect := b "https://a.example/cb"; tr_code := code_for_A;
      tr_verifier := []; tr_vhash := []; tr_basic := Some (b "clientC", b "secretC");
      tr_form_client := b "clientA"; tr_form_secret := [] |}.
 
